@@ -304,8 +304,9 @@ type Info struct {
 	N, R, P int
 	KeyLen  int // declared key length, 0 when absent
 	IV      []byte
-	Key     []byte // derived key
-	Data    []byte // EncryptedData content
+	Key     []byte                // derived key
+	Data    []byte                // EncryptedData content
+	KDFOID  asn1.ObjectIdentifier // key derivation function identifier (PBES2)
 }
 
 func unmarshalAll(b []byte, v any) error {
@@ -343,6 +344,7 @@ func Decrypt(der, password []byte) ([]byte, *Info, error) {
 			return nil, info, fmt.Errorf("ref/pbes: unknown cipher %v", p.Enc.Algorithm)
 		}
 		info.Cipher = c.Name
+		info.KDFOID = p.KDF.Algorithm
 		key, err := deriveKey(info, p.KDF, password, c.KeyLen)
 		if err != nil {
 			return nil, info, err
